@@ -10,7 +10,8 @@ from verif.oracles import lifecycle as oracle
 META = {
     "id": "C11", "engine": "E1 s4u harness (actor lifecycle scripts)", "engine_path": "harness/lifecycle.cpp",
     "engine_kind": "S4U program executing generated per-actor scripts on the real kernel; boundary log (call/return of every API call, "
-                   "Actor::on_creation/on_termination/Engine::on_deadlock signals, every on_exit callback) checked offline in python",
+                   "Actor::on_creation/on_termination/Engine::on_deadlock signals, every on_exit callback, plus a read-only kernel monitor on the "
+                   "verif::on_kernel_quiescent hook that reports actors marked to die which nothing will schedule again) checked offline in python",
     "level": "exploration",
     "technique": "boundary-recorded history of generated lifecycle programs (create, kill, kill_all, join with/without time-out, daemonize, "
                  "set_kill_time, suspend/resume, exit, host off/on with auto-restart) checked event by event against the rules of the statement",
@@ -22,7 +23,8 @@ META = {
                   "the termination signal, last registered first, with failed == (the body did not return); no daemon survives a clock advance "
                   "(or the end of the run) without a live regular actor and no actor dies without a cause present in the history at that date "
                   "(kill, kill_all, host off, its kill time, exit(), daemon rule, deadlock); an actor with one kill time is not alive after it; "
-                  "victims of a served kill terminate at that date and never return from a call afterwards; a suspended actor returns from no "
+                  "victims of a served kill terminate at that date and never return from a call afterwards; no actor is left marked to die without being "
+                  "scheduled again (such an actor never ends: no on_exit, no termination, bogus deadlock); a suspended actor returns from no "
                   "call until resumed, its exec lasts at least flops/speed + the suspended time and has the same remaining work at both ends "
                   "of the suspension. Auto-restart after a reboot is part of the generated programs (the restarted incarnations obey the same rules, "
                   "their inherited callbacks included) but the statement has no clause on which actors a reboot re-creates: that is only counted "
@@ -33,7 +35,10 @@ META = {
                   "scheduling round) leave the target's state undecided: nothing is demanded of it until the next unambiguous request. What a suspended *sleep* does (SimGrid lets the timer run and holds the wake-up) is not "
                   "judged: only 'returns from no call until resumed' is. Several kill times on one actor: the statement is silent on which one "
                   "wins, only 'not alive after the latest' is required. Inherited on_exit callbacks of restarted actors: at most once each, "
-                  "after the own ones. Plain and ASan+UBSan flavours.",
+                  "after the own ones. A request whose return was never logged (issuer suspended or killed in the round of the request) counts as "
+                  "possibly served: it can explain a death, it is never required to have had an effect. The harness is compiled with access to the "
+                  "private kernel headers only for the monitor (wannadie / to_be_freed / actors_to_run are read, nothing is written). Plain and "
+                  "ASan+UBSan flavours (the sanitized one on the directed cases and 5 % of the generated ones, thread contexts).",
     "rule": "case = one scenario (scripts + placement); non-trivial = distinct scenarios whose history was fully checked and exercised at least "
             "two of: checked join return, >=2 on_exit callbacks on one actor, kill victim, suspend..resume interval, daemon killed with the last "
             "regular actor, death at the kill time, auto-restart",
